@@ -1,9 +1,9 @@
 package mod
 
 import (
-	"context"
 	"errors"
 	"fmt"
+	"math"
 	"time"
 
 	"go.riyazali.net/sqlite"
@@ -105,28 +105,41 @@ func (c *ConnModule) Update(value sqlite.Value, values ...sqlite.Value) error {
 
 	deadline, writeTime := values[0], values[1]
 
+	// Parse everything before changing anything: a statement that is
+	// refused must leave both attributes as they were.
+	newDeadline, newWriteTime := c.sc.deadline, c.sc.writeTime
 	if !deadline.NoChange() {
 		if deadline.IsNil() || deadline.Text() == "" {
-			c.sc.deadline = time.Time{}
-			c.sc.ctx = context.Background()
+			newDeadline = time.Time{}
 		} else {
-			c.sc.deadline, err = time.Parse(s3db.SQLiteTimeFormat, deadline.Text())
+			newDeadline, err = time.Parse(s3db.SQLiteTimeFormat, deadline.Text())
 			if err != nil {
 				// TODO: fix other time parsing error messages
 				return fmt.Errorf("deadline: must be like %s", s3db.SQLiteTimeFormat)
 			}
 		}
 	}
-
 	if !writeTime.NoChange() {
 		if writeTime.IsNil() || writeTime.Text() == "" {
-			c.sc.writeTime = time.Time{}
+			newWriteTime = time.Time{}
 		} else {
-			c.sc.writeTime, err = time.Parse(s3db.SQLiteTimeFormat, writeTime.Text())
+			newWriteTime, err = time.Parse(s3db.SQLiteTimeFormat, writeTime.Text())
 			if err != nil {
 				return fmt.Errorf("write_time: must be like %s", s3db.SQLiteTimeFormat)
 			}
+			// entry times are 64-bit nanoseconds since 1970: a time outside
+			// that range would wrap around and sort among other centuries
+			if newWriteTime.Before(time.Unix(0, math.MinInt64)) || newWriteTime.After(time.Unix(0, math.MaxInt64)) {
+				return errors.New("write_time: must be between 1677-09-22 and 2262-04-11")
+			}
 		}
+	}
+
+	if !deadline.NoChange() {
+		c.sc.deadline = newDeadline
+	}
+	if !writeTime.NoChange() {
+		c.sc.writeTime = newWriteTime
 		// from here on the write time is the user's, not the one the open
 		// transaction fixed for itself (which COMMIT/ROLLBACK would clear)
 		c.sc.txFixedWriteTime = false
